@@ -1172,7 +1172,8 @@ pub fn run(opts: &Opts) -> i32 {
             extra,
             assumptions: vec![
                 "threads can lose the CPU only at the hook yield points (every VM instruction, backtrack, delegate call, API and iterator seam)".into(),
-                "races below that granularity exist only for unsafe code and are left to the Miri slice of the thorough tier".into(),
+                "races below that granularity (unsafe code, or new code that locks and unlocks between two yield points) are left to the Miri slice, which runs in both tiers".into(),
+                "reference = every call alone on a freshly compiled regex; an operation that works through a private clone is referred to a second fresh build, never to a clone".into(),
             ],
             wall_s: wall,
             violations,
